@@ -337,6 +337,13 @@ Definition op_witness_path (req : bexpr) (p : gprog) : list (string * bool) :=
   | None => []
   end.
 
+(** A sequence of operations on one connector.  The generated guard programs read no connector
+    state: a test on an instance attribute is a [GChoice] (either branch, whatever was called
+    before), the only state the translator accepts in a predicate is its own memoisation cache.
+    So the possible outcomes of the k-th operation of a sequence are those of the operation alone. *)
+Definition run_seq (ops : list gprog) (e : env) : list (list (result * list string)) :=
+  map (fun p => grun p e) ops.
+
 (** non-vacuity helper: some outcome completes normally after transmitting *)
 Definition completes_with_send (p : gprog) (e : env) : bool :=
   existsb (fun o => result_eqb (fst o) ROk && negb (is_nil (snd o))) (grun p e).
